@@ -226,7 +226,11 @@ func cmdRac(args []string) {
 		n++
 		go func(name, src string) {
 			sem <- true
-			out, _ := runRAC(W, src, []string{"VERIF_SEED=" + os.Getenv("VERIF_SEED"), "RAC_SECONDS=8", "RAC_TRIALS=20000"}, 150*time.Second)
+			secs, trials := "8", "20000"
+			if v := os.Getenv("APDVC_RAC_SECONDS"); v != "" {
+				secs, trials = v, "100000000"
+			}
+			out, _ := runRAC(W, src, []string{"VERIF_SEED=" + os.Getenv("VERIF_SEED"), "RAC_SECONDS=" + secs, "RAC_TRIALS=" + trials}, 600*time.Second)
 			<-sem
 			ch <- res{name, out}
 		}(name, src)
